@@ -103,7 +103,7 @@ class Client(ModelObj):
         route = self.routes.get(self.i) if self.routes else None
         if route and route != "direct" and k in ("tell", "ask", "tell_t", "ask_t", "stop", "kill", "is_alive") and op[1] in self.refs and self.refs[op[1]].value is not MOVED:
             return self.start_erased(it, op, route)
-        if k in ("tell", "ask", "tell_t", "ask_t", "ask_join", "stop", "kill", "is_alive", "downgrade") and (
+        if k in ("tell", "ask", "tell_t", "ask_t", "ask_join", "stop", "kill", "is_alive", "downgrade", "btell", "bask", "btell_t", "bask_t", "tell_blocking", "ask_blocking") and (
                 op[1] not in self.refs or self.refs[op[1]].value is MOVED):
             return ("val", "skipped:no-reference")
         if k in ("tell", "ask", "tell_t", "ask_t", "ask_join"):
@@ -114,6 +114,16 @@ class Client(ModelObj):
                 args.append(w.mk_duration(op[3]))
             via = op[4] if len(op) > 4 else None
             return ("fut", w.call_method(it, "ActorRef", meth, args))
+        if k in ("btell", "bask", "btell_t", "bask_t", "tell_blocking", "ask_blocking"):
+            # blocking API, called from a plain thread: the whole call happens inside this step
+            meth = {"btell": "blocking_tell", "btell_t": "blocking_tell", "bask": "blocking_ask", "bask_t": "blocking_ask",
+                    "tell_blocking": "tell_blocking", "ask_blocking": "ask_blocking"}[k]
+            to = mk_none() if k in ("btell", "bask") else mk_some(w.mk_duration(op[3]))
+            try:
+                r = w.call_method(it, "ActorRef", meth, [self.ref(op[1]), w.mk_msg(op[2]), to])
+            except BlockedForever:
+                r = "BLOCKED-FOREVER"
+            return ("val", r)
         if k == "stop":
             return ("fut", w.call_method(it, "ActorRef", "stop", [self.ref(op[1])]))
         if k == "kill":
